@@ -218,21 +218,66 @@ Definition relative_uri (base to : str) : str :=
     else if Nat.eqb (length b2) 1 && list_str_eqb t2 [[]] then [c_dot; c_slash]
     else ups (length b2 - 1) ++ join s_slash t2.
 
-(* StandaloneHTMLBuilder.get_target_uri: quote(docname) + '.html'
-   (urllib.parse.quote is the identity on the characters of generated names: oracle) *)
-Definition target_uri (docname : str) : str := docname ++ s_html.
+(* get_target_uri of the two HTML builders.
+   html:    quote(docname) + '.html'  (urllib.parse.quote is injective and is undone by the
+            comparison: the model works on unquoted strings, oracle O_quote)
+   dirhtml: '' for 'index', docname[:-5] for '.../index', else docname + '/' *)
+Definition s_index : str := [105; 110; 100; 101; 120].           (* "index" *)
+Definition target_uri (dirhtml : bool) (docname : str) : str :=
+  if dirhtml then
+    (* docname == 'index'  <=> its components are ["index"];  docname.endswith('/index') <=> there are at
+       least two components and the last one is "index" (true of every string, "index" has no '/');
+       docname[:-5] then is the other components joined, with a trailing '/' *)
+    match split_last (split_on c_slash docname) with
+    | Some (front, z) =>
+        if str_eqb z s_index
+        then (if is_nil front then [] else join s_slash (front ++ [[]]))
+        else docname ++ s_slash
+    | None => docname ++ s_slash
+    end
+  else docname ++ s_html.
 
 (* Builder.get_relative_uri *)
-Definition get_relative_uri (from to : str) : str :=
-  relative_uri (target_uri from) (target_uri to).
+Definition get_relative_uri (dirhtml : bool) (from to : str) : str :=
+  relative_uri (target_uri dirhtml from) (target_uri dirhtml to).
+
+(* ---------- os.path.relpath(path, start) for absolute arguments ---------- *)
+
+Fixpoint strip_common_all (a b : list str) : list str * list str :=
+  match a, b with
+  | x :: a', y :: b' => if str_eqb x y then strip_common_all a' b' else (a, b)
+  | _, _ => (a, b)
+  end.
+
+Definition nonempty_segs (s : str) : list str :=
+  filter (fun x => negb (is_nil x)) (split_on c_slash s).
+
+(* abspath(p) = normpath(p) for an absolute p; commonprefix of the two component lists;
+   '..' for what is left of start, then what is left of path; '.' when nothing is left *)
+Definition relpath (path start : str) : str :=
+  let '(s', p') := strip_common_all (nonempty_segs (normpath start)) (nonempty_segs (normpath path)) in
+  match repeat s_dotdot (length s') ++ p' with
+  | [] => s_dot
+  | rel => join s_slash rel
+  end.
 
 (* How a user agent resolves a relative reference [rel] (path only, no fragment) against
    the URI [base] of the page that contains it (RFC 3986 5.2 for path-only references):
    the empty reference is the page itself, otherwise the last segment of the base is
-   replaced by the reference and dot segments are removed.  This is the specification
-   side of the round-trip theorem, not a transcription of implementation code. *)
+   replaced by the reference and dot segments are removed; a reference that ends in '/',
+   '/.' or '/..' denotes a directory, so the result keeps a trailing '/'.  This is the
+   specification side of the round-trip theorem, not a transcription of implementation code. *)
+Definition ends_in_dir (segs : list str) : bool :=
+  match split_last segs with
+  | Some (_, z) => is_nil z || str_eqb z s_dot || str_eqb z s_dotdot
+  | None => false
+  end.
+
 Definition resolve_ref (base rel : str) : str :=
   match rel with
   | [] => base
-  | _ => join s_slash (norm_loop true (removelast (split_on c_slash base) ++ split_on c_slash rel) [])
+  | _ =>
+      let segs := removelast (split_on c_slash base) ++ split_on c_slash rel in
+      let out := norm_loop true segs [] in
+      join s_slash (if ends_in_dir segs then out ++ [[]] else out)
   end.
